@@ -24,8 +24,8 @@ PROFILES = {
     'lifecycle': dict(batch=1, submit=6, update=1, jobs=2, commit=2, cancel=3, instance=2, deactivate=2, schedule=6, schedule_any=3,
                       creating=2, started=5, started_fresh=2, complete=9, unschedule=3, sched_loop=3, cancel_ready=2, cancel_running=2,
                       cancel_orphans=2, tick=1),
-    'deps': dict(batch=1, submit=5, update=4, groups=2, jobs=5, commit=5, cancel=1, instance=1, schedule=7, complete=9, sched_loop=5,
-                 cancel_ready=3, tick=1),
+    'deps': dict(batch=1, submit=5, update=4, groups=2, jobs=5, commit=6, cancel=1, instance=1, schedule=7, complete=9, sched_loop=5,
+                 cancel_ready=3, creating=4, activate=2, jp_schedule=2, tick=1),
     'groups': dict(batch=1, submit=6, update=4, groups=4, jobs=4, commit=5, cancel=4, delete=1, instance=1, schedule=5, complete=8,
                    sched_loop=4, cancel_ready=4, cancel_running=1, tick=1),
     'cancel': dict(batch=1, submit=6, update=3, groups=4, jobs=4, commit=4, cancel=9, instance=2, schedule=6, schedule_any=2, creating=3,
@@ -95,7 +95,7 @@ def strategies(profile, max_ops=40):
         if kind == 'burst':
             return st.tuples(st.just('burst'), st.sampled_from([0, 0, 0, 1]), st.integers(0, 30), st.sampled_from([1, 100, 1000])).map(list)
         if kind == 'unschedule':
-            return st.tuples(st.just('unschedule'), st.integers(0, 12)).map(list)
+            return st.tuples(st.just('unschedule'), st.integers(0, 12), st.sampled_from([False, True])).map(list)
         if kind == 'sched_loop':
             return st.tuples(st.just('sched_loop'), st.sampled_from([0, 0, 0, 1])).map(list)
         if kind == 'tick':
